@@ -70,7 +70,11 @@ def run_compiled(cases, tag, flavor, want, batch_size=150, keep=None):
         for cid, m in mods.items():
             o = obs_by_id[cid]
             classes = sorted(set(B.classify(e) for e in m.errors))
-            o["compile"] = {"outcome": "reject" if m.errors else "ok", "classes": classes,
+            import re as _re
+            alltext = " ".join(e["message"] + " " + e.get("rendered", "") for e in m.errors)
+            flags = [t for t, rx in (("entry", r"ENTRY_|_entry\b|WORKGROUP_SIZE|VertexEntry|FragmentEntry|_pipeline\b"), ("bindgroup", r"BindGroup|bind_groups|LAYOUT_DESCRIPTOR"),
+                                     ("override", r"OverrideConstants|\bentries\b"), ("vertex", r"VERTEX_ATTRIBUTES|vertex_buffer_layout"), ("const", r"\bconst\b")) if _re.search(rx, alltext)]
+            o["compile"] = {"outcome": "reject" if m.errors else "ok", "classes": classes, "flags": flags,
                             "errors": [e["message"][:300] for e in m.errors[:4]],
                             "probe_fail": [{"probe": pn, "code": es[0].get("code") or "?", "message": es[0]["message"][:300]} for pn, es in m.probe_errors.items()]}
             o["rt"] = rt_by_case.get(cid, [])
